@@ -174,3 +174,16 @@ def empty_stack_acceptor(rng):
     if rng.random() < 0.3:
         T.append((q0, rng.choice(syms), None, q0, None))
     return pd.make(Q, syms, G, T, q0, F)
+
+
+def exotic_names(rng, RP, allow_quote=True):
+    """the same PDA with unusual but legal state names for directly built automata: the empty string, blanks, punctuation,
+    brackets (never for the text formats)"""
+    from vt.gen import fag
+    for _ in range(5):
+        names = fag.random_names(rng, len(RP[0]), exotic=True)
+        if not allow_quote and any("'" in x for x in names):
+            continue
+        if len(set(names)) == len(RP[0]) and not (set(names) & set(RP[2])):
+            return rename(RP, dict(zip(RP[0], names)))
+    return None
